@@ -25,7 +25,7 @@ for d in srcdirs:
         import tempfile
         tmp = tempfile.mkdtemp(prefix="seed-")
         shutil.copytree("/repo/repid", tmp + "/repid", ignore=shutil.ignore_patterns("__pycache__"))
-        subprocess.run(["patch", "-p1", "-s", "-d", tmp, "-i", f"{out}/patch.diff"], check=True)
+        subprocess.run(["patch", "-p1", "-s", "-f", "-d", tmp, "-i", f"{out}/patch.diff"], check=True)
         caught = {}
         for p in sorted(os.path.basename(q)[:-3] for q in glob.glob("/verif/sa/rules/C??.py")):
             r = subprocess.run(["/venv/bin/python", "-m", "sa.check", p, "--repo", tmp, "--no-evidence"], capture_output=True, text=True, cwd="/verif")
